@@ -21,6 +21,9 @@ NONTRIVIAL = {
     "c19": lambda i: isinstance(i, dict) and (len(i.get("s") or []) > 0 or len(i.get("m") or []) > 0 or i.get("op") not in ("parse", "print")),
     "c20": lambda i: isinstance(i, dict) and len(i.get("runes") or []) > 1,
     "c18": lambda i: isinstance(i, dict) and len(i.get("ops") or []) > 1,
+    "c11p": lambda i: isinstance(i, dict) and len(i.get("arts") or []) > 1,
+    "c10": lambda i: isinstance(i, dict) and len(i.get("arts") or []) > 1,
+    "c12": lambda i: isinstance(i, dict) and len(i.get("arts") or []) > 1,
     "c15": lambda i: isinstance(i, dict) and len(i.get("name") or []) > 1,
 }
 
@@ -28,11 +31,11 @@ FINDING_PREDICATES = {}
 
 PROPS = {
     "C11": {
-        "engines": [("c11", "main"), ("fp", "aux")],
+        "engines": [("c11", "main"), ("c11p", "main"), ("fp", "aux")],
         "lean": ["PgsVerif.Props.C11"],
         "level_text": "Theorems over all byte strings: C11_rejects (absolute/empty/'.'/climbing names rejected), C11_accepted_normal (accepted names are relative, free of empty/./.. segments, denote the same file as the given name, strictly inside the base directory), C11_accepts_normalised, and C11_judge (the checker applied to implementation observations never fires on the model). The model (cleanGeneratorFileName over a segment-level filepath.Clean) is compared with the real code on ~135k names per quick run, through ProtoFile() of all six artifact kinds.",
         "level_note": "Trusted: Lean kernel; the segment-level model of Unix path/filepath (validated against the real functions by engine fp on every run, not proved); GOOS=linux; symlink-free denotation of paths.",
-        "rule": "exhaustive segment sequences over {a,b.go,.,..,..x,'',...,c} (len<=4 quick / <=6 thorough) x leading/trailing '/', plus seeded random byte strings; each name goes through ProtoFile() of all six generator artifact kinds; non-trivial = non-empty name; distinct by input bytes",
+        "rule": "exhaustive segment sequences over {a,b.go,.,..,..x,'',...,c} (len<=4 quick / <=6 thorough) x leading/trailing '/', plus seeded random byte strings; each name goes through ProtoFile() of all six generator artifact kinds (engine c11) and through the whole persister into the decoded response (engine c11p, crash-isolated); non-trivial = non-empty name; distinct by input bytes",
         "trusted": ["path/filepath on GOOS=linux is modelled at segment level (Model/FilePath.lean) and compared with the real functions by engine `fp` on every run"],
         "assumptions": ["GOOS=linux (ToSlash is the identity; '/' is the only separator)"],
     },
@@ -64,5 +67,21 @@ PROPS = {
         "rule": "exhaustive operation sequences up to length 5 (7 thorough) over {push p, push q, pushDir x, pushDir a/b, pushDir .., pushDir /abs, pop, popDir} that never pop the root, each on a raw context and through a ModuleBase, plus seeded random histories up to 14 ops with richer directories/prefixes; after every op: OutputPath, JoinPath, Log and Logf lines (recording debugger), Parameters; non-trivial = at least 2 ops",
         "level_text": "Refinement theorem: for every operation history that never pops the root, the chain of context objects (transcription of rootContext/dirContext/prefixContext and the prefixed debugger) shows exactly the observations of an abstract stack of directory/prefix frames (C18_refines), with corollaries for push/pushDir/pop/popDir/JoinPath/Parameters/log prefixes.",
         "level_note": "Trusted: Lean kernel; segment-level filepath model (validated by C11's fp engine); fmt.Println/Printf rendering of log lines modelled for verb-free formats; ModuleBase is observed through the same model (its wrappers only reassign the embedded context) - compared by K, not separately modelled. PushDir reads 'joined with that directory, cleaned' as Join(path, Clean(dir)), which differs from Join(path, dir) only for an absolute dir with excess '..' (documented in DESIGN.md).",
+    },
+    "C10": {
+        "engines": [("c10", "main")],
+        "lean": ["PgsVerif.Props.C10"],
+        "category": "exploration",
+        "rule": "exhaustive artifact sequences up to length 4 (5 thorough) over {file a, overwriting file a, file b, file ./a, append a, append b, append d/../a, injection a, error}; seeded random sequences up to 30 with template twins, illegal names, unknown artifacts, custom files and post-processor stacks of 0-3 matching/non-matching/failing processors; driven through Init(...).RegisterModule(...).Render() in a crash-isolated worker (a fail-stop is an observation); non-trivial = at least 2 artifacts",
+        "level_text": "THEOREMS PENDING (level exploration until proved): executable Lean transcription of Persist/indexOfFile/tailOfFile/insertFile/insertAppend/postProcess compared with the real persister; Phi_C10 = (protoc's reading `interp` of the observed response) = (abstract `meaning` of the artifact list), evaluated on every observed response. Planned theorem: interp (persist arts).files = (meaning arts).entries for all artifact lists and processor stacks (refinement through entry blocks).",
+        "level_note": "Trusted: proto.Marshal/Unmarshal (responses compared after decoding); templates and post-processors are modelled by their input/output behaviour (rendered text or failure; suffix-appending or failing processors).",
+    },
+    "C12": {
+        "engines": [("c12", "main")],
+        "lean": ["PgsVerif.Props.C12"],
+        "category": "exploration",
+        "rule": "exhaustive custom-artifact sequences up to length 4 (5 thorough) over {a, a overwrite, d/a, d/./a, d/e/../a overwrite, /abs/a, d/b overwrite} x permission bits x subsets of 4 pre-existing files on afero.MemMapFs; seeded random runs mixing custom templates, generator files, errors and post-processors; every path of the run and all its parents probed afterwards (kind, content, mode); non-trivial = at least 2 artifacts",
+        "level_text": "THEOREMS PENDING (level exploration until proved): executable Lean model of writeFile over a finite-map file system compared with the real persister on MemMapFs; Phi_C12 = per-path declarative rule (first writer wins unless overwrite; creator's mode; post-processed content; parents exist; response unaffected) evaluated on every observed file system.",
+        "level_note": "Trusted: afero MemMapFs semantics as modelled (normalizePath, create-or-truncate, chmod only on create, MkdirAll of all ancestors); domain excludes file/directory prefix conflicts (fail-stop on a real file system, C14's territory).",
     },
 }
